@@ -169,6 +169,20 @@ GNextBig ==
           Poll(s, k) /\ lim' = [lim EXCEPT ![s] = [i \in DOMAIN lim[s] |-> [lim[s][i] EXCEPT !.seen = TRUE]]]) /\ UNCHANGED pipes
     \/ LimSide
 GSpecBig == GInit /\ [][GNextBig]_gvars
+(* the same as a COMPLETE tree: every pair of mutator calls at representative indices of a long vector, then one poll *)
+(* (a size-dependent path may corrupt internal bookkeeping that only the next call touches)                          *)
+IdxFew(n) == {0, n \div 2, n - 1, n} \cap 0..n
+MutFew ==
+    \/ PushBack("v", fresh) \/ PushFront("v", fresh) \/ PopBack("v") \/ PopFront("v")
+    \/ \E i \in IdxFew(Len(vals)) : Insert("v", i, fresh) \/ Truncate("v", i)
+    \/ \E i \in IdxFew(Len(vals) - 1) : SetAt("v", i, fresh, "Set") \/ RemoveIdx("v", i, "Remove")
+    \/ \E k \in {20, 40} : AppendK("v", k)
+GNextBigTree ==
+    IF Len(hist) <= Depth - 1
+    THEN MutFew /\ UNCHANGED <<pipes, lim>>
+    ELSE (\E s \in 1..Len(pipes) :
+            Poll(s, 0) /\ lim' = [lim EXCEPT ![s] = [i \in DOMAIN lim[s] |-> [lim[s][i] EXCEPT !.seen = TRUE]]]) /\ UNCHANGED pipes
+GSpecBigTree == GInit /\ [][GNextBigTree]_gvars
 
 View == <<core, pipes, lim>>
 Bound == Len(hist) <= Depth
